@@ -146,6 +146,22 @@ func (x *Ex) genFuncsMore(body *LeanFile) {
 		{"internal/webdoc", "TextDocument", "ApplyToModel"},
 		{"internal/webdoc", "Document", "CreateTextDocument"},
 	})
+	// the rendering of Text elements and of the document: what Model/TextRender.lean models
+	x.bodyGroup(body, "textRenderBodies", []string{"C01", "C02", "C05", "C06", "C07", "C09"}, [][3]string{
+		{"internal/webdoc", "Text", "GenerateOutput"},
+		{"internal/webdoc", "Text", "GetTextNodes"},
+		{"internal/webdoc", "Tag", "GenerateOutput"},
+		{"internal/webdoc", "Document", "GenerateOutput"},
+		{"internal/domutil", "", "TreeClone"},
+		{"internal/domutil", "", "GetAncestors"},
+		{"internal/domutil", "", "GetNearestCommonAncestor"},
+		{"internal/domutil", "", "GetParentElement"},
+		{"internal/domutil", "", "InnerText"},
+		{"internal/domutil", "", "StripAttributes"},
+		{"internal/domutil", "", "MakeAllLinksAbsolute"},
+		{"internal/domutil", "", "MakeAllSrcAttributesAbsolute"},
+		{"internal/domutil", "", "MakeAllSrcSetAbsolute"},
+	})
 	// the prefix test whose success licenses `linkHref[lenPrefix:]` in PrevNextFinder.FindOutlink
 	x.bodyStmts(body, "internal/stringutil", "", "HasPrefixIgnoreCase", "hasPrefixIgnoreCaseBody", "C01", "C16")
 }
